@@ -82,6 +82,8 @@ pub trait SimK:
     PartialEq + Eq + Clone + Borrow<Class> + fmt::Debug + fmt::Display + Serialize + for<'de> Deserialize<'de> + 'static
 {
     const ANON: bool;
+    /// no drop glue: not recorded in the ledger
+    const PLAIN: bool = false;
     const HEAP: bool;
     const NAME: &'static str;
     fn make(class: u32, tag: u32) -> Self;
@@ -94,6 +96,7 @@ pub trait SimV:
     PartialEq + Eq + Clone + Default + fmt::Debug + fmt::Display + Serialize + for<'de> Deserialize<'de> + 'static
 {
     const ANON: bool;
+    const PLAIN: bool = false;
     const HEAP: bool;
     const NAME: &'static str;
     fn make(payload: u64, tag: u32) -> Self;
@@ -133,7 +136,7 @@ impl<F: Fill> SimK for SimKey<F> {
     }
     #[inline]
     fn peek(&self) -> Peek {
-        Peek { bad: badness(self.magic, MAGIC_K), id: self.id, class: self.class.0, tag: self.tag, kind: 0, anon: false }
+        Peek { bad: badness(self.magic, MAGIC_K), id: self.id, class: self.class.0, tag: self.tag, kind: 0, anon: false, plain: false }
     }
     fn intact(&self) -> bool {
         self.magic == MAGIC_K && self.fill.ok(self.id)
@@ -233,7 +236,7 @@ impl<F: Fill> SimV for SimVal<F> {
     }
     #[inline]
     fn peek(&self) -> Peek {
-        Peek { bad: badness(self.magic, MAGIC_V), id: self.id, class: 0, tag: self.tag, kind: 1, anon: false }
+        Peek { bad: badness(self.magic, MAGIC_V), id: self.id, class: 0, tag: self.tag, kind: 1, anon: false, plain: false }
     }
     fn payload(&self) -> u64 {
         self.payload
@@ -458,5 +461,163 @@ impl<'de> Deserialize<'de> for ZVal {
         env::touch(Cb::De, None, None);
         env::born_anon(1);
         Ok(ZVal)
+    }
+}
+
+// ---------------------------------------------------------------- payloads without drop glue
+
+/// A key without a destructor (`needs_drop::<PKey>()` is false): it carries an identity, but the
+/// ledger cannot follow it, so only its uses are validated (magic word), not its lifetime.
+#[repr(C)]
+pub struct PKey {
+    magic: u32,
+    class: Class,
+    alt: Class,
+    tag: u32,
+    id: u64,
+}
+
+#[repr(C)]
+pub struct PVal {
+    magic: u32,
+    tag: u32,
+    id: u64,
+    payload: u64,
+}
+
+impl SimK for PKey {
+    const ANON: bool = false;
+    const PLAIN: bool = true;
+    const HEAP: bool = false;
+    const NAME: &'static str = "PKey";
+    fn make(class: u32, tag: u32) -> Self {
+        PKey { magic: MAGIC_K, class: Class(class), alt: Class(class ^ 1), tag, id: env::born_plain() }
+    }
+    fn peek(&self) -> Peek {
+        Peek { bad: badness(self.magic, MAGIC_K), id: self.id, class: self.class.0, tag: self.tag, kind: 0, anon: false, plain: true }
+    }
+    fn intact(&self) -> bool {
+        self.magic == MAGIC_K
+    }
+}
+impl PartialEq for PKey {
+    fn eq(&self, o: &Self) -> bool {
+        let (a, b) = (self.peek(), o.peek());
+        env::eq(Cb::EqK, a.bad == 0 && b.bad == 0 && a.class == b.class, &a, &b)
+    }
+}
+impl Eq for PKey {}
+impl Borrow<Class> for PKey {
+    fn borrow(&self) -> &Class {
+        env::touch(Cb::Borrow, Some(&self.peek()), None);
+        if env::with(|e| e.lie_borrow && e.mode == env::Mode::Op) {
+            &self.alt
+        } else {
+            &self.class
+        }
+    }
+}
+impl Clone for PKey {
+    fn clone(&self) -> Self {
+        let p = self.peek();
+        env::touch(Cb::CloneK, Some(&p), None);
+        PKey { magic: MAGIC_K, class: self.class, alt: self.alt, tag: self.tag, id: env::born_plain() }
+    }
+}
+impl fmt::Debug for PKey {
+    fn fmt(&self, f: &mut fmt::Formatter<'_>) -> fmt::Result {
+        let p = self.peek();
+        env::touch(Cb::FmtK, Some(&p), None);
+        write!(f, "k{}", p.id)
+    }
+}
+impl fmt::Display for PKey {
+    fn fmt(&self, f: &mut fmt::Formatter<'_>) -> fmt::Result {
+        let p = self.peek();
+        env::touch(Cb::FmtK, Some(&p), None);
+        write!(f, "K{}", p.id)
+    }
+}
+impl Serialize for PKey {
+    fn serialize<S: Serializer>(&self, s: S) -> Result<S::Ok, S::Error> {
+        let p = self.peek();
+        env::touch(Cb::Ser, Some(&p), None);
+        s.serialize_u64(((p.class as u64) << 40) | (p.id & 0xff_ffff_ffff))
+    }
+}
+impl<'de> Deserialize<'de> for PKey {
+    fn deserialize<D: Deserializer<'de>>(d: D) -> Result<Self, D::Error> {
+        let w = u64::deserialize(d)?;
+        env::touch(Cb::De, None, None);
+        Ok(PKey::make((w >> 40) as u32, 0))
+    }
+}
+
+impl SimV for PVal {
+    const ANON: bool = false;
+    const PLAIN: bool = true;
+    const HEAP: bool = false;
+    const NAME: &'static str = "PVal";
+    fn make(payload: u64, tag: u32) -> Self {
+        PVal { magic: MAGIC_V, tag, id: env::born_plain(), payload }
+    }
+    fn peek(&self) -> Peek {
+        Peek { bad: badness(self.magic, MAGIC_V), id: self.id, class: 0, tag: self.tag, kind: 1, anon: false, plain: true }
+    }
+    fn payload(&self) -> u64 {
+        self.payload
+    }
+    fn set_payload(&mut self, p: u64) {
+        self.payload = p;
+    }
+    fn intact(&self) -> bool {
+        self.magic == MAGIC_V
+    }
+}
+impl PartialEq for PVal {
+    fn eq(&self, o: &Self) -> bool {
+        let (a, b) = (self.peek(), o.peek());
+        env::eq(Cb::EqV, a.bad == 0 && b.bad == 0 && self.payload == o.payload, &a, &b)
+    }
+}
+impl Eq for PVal {}
+impl Clone for PVal {
+    fn clone(&self) -> Self {
+        env::touch(Cb::CloneV, Some(&self.peek()), None);
+        PVal { magic: MAGIC_V, tag: self.tag, id: env::born_plain(), payload: self.payload }
+    }
+}
+impl Default for PVal {
+    fn default() -> Self {
+        env::touch(Cb::Dflt, None, None);
+        PVal::make(0, 0)
+    }
+}
+impl fmt::Debug for PVal {
+    fn fmt(&self, f: &mut fmt::Formatter<'_>) -> fmt::Result {
+        let p = self.peek();
+        env::touch(Cb::FmtV, Some(&p), None);
+        write!(f, "v{}", p.id)
+    }
+}
+impl fmt::Display for PVal {
+    fn fmt(&self, f: &mut fmt::Formatter<'_>) -> fmt::Result {
+        let p = self.peek();
+        env::touch(Cb::FmtV, Some(&p), None);
+        write!(f, "V{}", p.id)
+    }
+}
+impl Serialize for PVal {
+    fn serialize<S: Serializer>(&self, s: S) -> Result<S::Ok, S::Error> {
+        let p = self.peek();
+        env::touch(Cb::Ser, Some(&p), None);
+        s.serialize_u64(((self.payload & 0xff_ffff) << 40) | (p.id & 0xff_ffff_ffff))
+    }
+}
+impl<'de> Deserialize<'de> for PVal {
+    fn deserialize<D: Deserializer<'de>>(d: D) -> Result<Self, D::Error> {
+        let w = u64::deserialize(d)?;
+        env::touch(Cb::De, None, None);
+        Ok(PVal::make(w >> 40, 0))
     }
 }
